@@ -66,16 +66,18 @@ def eXDHeader : Layout :=
     .mk "index_size" none .none 2 (.prim .u32) 0 20] true
 end Expected
 
-/-! ### step 2 (re-checked on every run; `.little` as the ambient endianness shows that the
-structs' own `#[brw(big)]` decides) -/
+/-! ### step 2 (re-checked on every run).  The ambient endianness is the one of the enclosing
+top-level structs `EXH` / `EXD` (`#[brw(big)]`, regenerated: `endian_generated`). -/
+theorem endian_generated :
+    BinrwExcel.eXH.endianOr .little = .big ∧ BinrwExcel.eXD.endianOr .little = .big := ⟨rfl, rfl⟩
 theorem eXHHeader_generated :
-    BinrwExcel.eXHHeader.normalizeAt .little = Expected.eXHHeader.normalizeAt .little := rfl
+    BinrwExcel.eXHHeader.normalizeAt .big = Expected.eXHHeader.normalizeAt .big := rfl
 theorem excelDataPagination_generated :
-    BinrwExcel.excelDataPagination.normalizeAt .little = Expected.excelDataPagination.normalizeAt .little := rfl
+    BinrwExcel.excelDataPagination.normalizeAt .big = Expected.excelDataPagination.normalizeAt .big := rfl
 theorem excelDataOffset_generated :
-    BinrwExcel.excelDataOffset.normalizeAt .little = Expected.excelDataOffset.normalizeAt .little := rfl
+    BinrwExcel.excelDataOffset.normalizeAt .big = Expected.excelDataOffset.normalizeAt .big := rfl
 theorem eXDHeader_generated :
-    BinrwExcel.eXDHeader.normalizeAt .little = Expected.eXDHeader.normalizeAt .little := rfl
+    BinrwExcel.eXDHeader.normalizeAt .big = Expected.eXDHeader.normalizeAt .big := rfl
 
 /-! ### projections -/
 def exhHeaderOf : List Value → Option Exh.EXHHeader
@@ -90,17 +92,17 @@ def dataOffsetOf : List Value → Option Exd.ExcelDataOffset
 
 /-! ### step 1 -/
 theorem pHeader_eq_expected (l : Bytes) :
-    Exh.pHeader l = via exhHeaderOf (Layout.read .little Expected.eXHHeader l) := by
+    Exh.pHeader l = via exhHeaderOf (Layout.read .big Expected.eXHHeader l) := by
   binrw_norm [Exh.pHeader, Exh.exhMagic, Expected.eXHHeader, p_bind, p_pure, p_pure', pure, p_skip, p_u16be, p_u32be, p_magic]
   rfl
 
 theorem pPage_eq_expected (l : Bytes) :
-    Exh.pPage l = via pageOf (Layout.read .little Expected.excelDataPagination l) := by
+    Exh.pPage l = via pageOf (Layout.read .big Expected.excelDataPagination l) := by
   binrw_norm [Exh.pPage, Expected.excelDataPagination, p_bind, p_pure, p_pure', pure, p_u32be]
   rfl
 
 theorem pDataOffset_eq_expected (l : Bytes) :
-    Exd.pDataOffset l = via dataOffsetOf (Layout.read .little Expected.excelDataOffset l) := by
+    Exd.pDataOffset l = via dataOffsetOf (Layout.read .big Expected.excelDataOffset l) := by
   binrw_norm [Exd.pDataOffset, Expected.excelDataOffset, p_bind, p_pure, p_pure', pure, p_u32be]
   rfl
 
@@ -114,7 +116,7 @@ def dataOffsetOfV : Value → Option Exd.ExcelDataOffset
 /-- `#[br(count = n)] Vec<ExcelDataPagination>` -/
 theorem countPage_eq_expected (n : Nat) (l : Bytes) :
     ParserBE.count Exh.pPage n l =
-      (repeatN (Kind.read .little [] (.struct Expected.excelDataPagination)) n l).bind fun vs =>
+      (repeatN (Kind.read .big [] (.struct Expected.excelDataPagination)) n l).bind fun vs =>
         (projAll pageOfV vs.1).map (·, vs.2) := by
   apply listReader_eq_repeatN Exh.pPage (ParserBE.count Exh.pPage)
   · intro l; rfl
@@ -127,7 +129,7 @@ theorem countPage_eq_expected (n : Nat) (l : Bytes) :
 /-- `#[br(count = n)] Vec<ExcelDataOffset>` -/
 theorem countDataOffset_eq_expected (n : Nat) (l : Bytes) :
     ParserBE.count Exd.pDataOffset n l =
-      (repeatN (Kind.read .little [] (.struct Expected.excelDataOffset)) n l).bind fun vs =>
+      (repeatN (Kind.read .big [] (.struct Expected.excelDataOffset)) n l).bind fun vs =>
         (projAll dataOffsetOfV vs.1).map (·, vs.2) := by
   apply listReader_eq_repeatN Exd.pDataOffset (ParserBE.count Exd.pDataOffset)
   · intro l; rfl
@@ -141,7 +143,7 @@ theorem countDataOffset_eq_expected (n : Nat) (l : Bytes) :
 `index_size / 8` offsets -/
 theorem pExdHead_eq_expected (l : Bytes) :
     Exd.pExdHead l =
-      (Layout.read .little Expected.eXDHeader l).bind fun x =>
+      (Layout.read .big Expected.eXDHeader l).bind fun x =>
         match x.1 with
         | [.w16 .u16 version, .w32 .u32 indexSize] =>
           (ParserBE.count Exd.pDataOffset (indexSize / 8).toNat x.2).map fun o => ((version, indexSize, o.1), o.2)
@@ -149,29 +151,139 @@ theorem pExdHead_eq_expected (l : Bytes) :
   binrw_norm [Exd.pExdHead, Exd.exdMagic, Expected.eXDHeader, p_bind, p_pure, p_pure', pure, p_skip, p_u16be,
     p_u32be, p_magic, Option.map_eq_bind]
 
+/-! ### `ExcelColumnDefinition` (repr-enum field) and the `Language` elements of `EXH.languages` -/
+
+theorem p_tryMap {α β : Type} (p : ParserBE.P α) (f : α → Option β) (l : Bytes) :
+    ParserBE.tryMap p f l = (p l).bind fun x => (f x.1).map fun b => (b, x.2) := by
+  unfold ParserBE.tryMap
+  rw [p_bind]
+  cases p l with
+  | none => rfl
+  | some x => simp only [Option.bind_some]; cases f x.1 <;> rfl
+
+def columnValid : List Nat := [0, 1, 2, 3, 4, 5, 6, 7, 9, 10, 11, 25, 26, 27, 28, 29, 30, 31, 32]
+def languageValid : List Nat := [0, 1, 2, 3, 4, 5, 6, 7]
+
+namespace Expected
+def excelColumnDefinition : Layout :=
+  .mk (some .big) .none [
+    .mk "data_type" none .none 0 (.enum .u16 columnValid) 0 0,
+    .mk "offset" none .none 0 (.prim .u16) 0 0] true
+end Expected
+
+theorem excelColumnDefinition_generated :
+    BinrwExcel.excelColumnDefinition.normalizeAt .big = Expected.excelColumnDefinition.normalizeAt .big := rfl
+theorem language_generated :
+    (BinrwExcel.languageRepr, BinrwExcel.languageValid) = (.u8, languageValid) := rfl
+
+/-- the regenerated discriminant list is the list of codes of the model's `ColumnDataType` -/
+theorem column_valid (c : UInt16) : columnValid.contains c.toNat = (Exh.ColumnDataType.ofCode c).isSome := by
+  have hv : columnValid = Exh.ColumnDataType.all.map (fun t => t.code.toNat) := by decide
+  rw [hv, Bool.eq_iff_iff]
+  simp only [List.contains_iff_mem, List.mem_map, Exh.ColumnDataType.ofCode, List.find?_isSome, beq_iff_eq,
+    ← UInt16.toNat_inj]
+
+theorem language_valid (c : UInt8) : languageValid.contains c.toNat = (Exh.Language.ofCode c).isSome := by
+  have hv : languageValid = Exh.Language.all.map (fun t => t.code.toNat) := by decide
+  rw [hv, Bool.eq_iff_iff]
+  simp only [List.contains_iff_mem, List.mem_map, Exh.Language.ofCode, List.find?_isSome, beq_iff_eq,
+    ← UInt8.toNat_inj]
+
+def columnOf : List Value → Option Exh.ExcelColumnDefinition
+  | [.w16 .u16 c, .w16 .u16 o] => (Exh.ColumnDataType.ofCode c).map fun t => ⟨t, o⟩
+  | _ => none
+def columnOfV : Value → Option Exh.ExcelColumnDefinition
+  | .struct vs => columnOf vs
+  | _ => none
+def languageOfV : Value → Option Exh.Language
+  | .w8 .u8 c => Exh.Language.ofCode c
+  | _ => none
+
+theorem pColumn_eq_expected (l : Bytes) :
+    Exh.pColumn l = via columnOf (Layout.read .big Expected.excelColumnDefinition l) := by
+  binrw_norm [Exh.pColumn, Expected.excelColumnDefinition, p_bind, p_pure, p_pure', pure, p_u16be, p_tryMap,
+    column_valid, columnOf]
+  cases u16be l with
+  | none => rfl
+  | some x =>
+    simp only [Option.bind_some]
+    cases h : Exh.ColumnDataType.ofCode x.1 with
+    | none => simp
+    | some t =>
+      simp only [Option.isSome_some, if_true, Option.map_some, Option.bind_some]
+
+/-- one `Language` of `#[br(count = header.language_count)] languages: Vec<Language>`: the
+regenerated `repr` enum (`languageRepr`, `languageValid`) read big-endian -/
+theorem pLanguage_eq_expected (l : Bytes) :
+    Exh.pLanguage l =
+      (Kind.read .big [] (.enum .u8 languageValid) l).bind fun v => (languageOfV v.1).map (·, v.2) := by
+  binrw_norm [Exh.pLanguage, p_tryMap, p_u8, language_valid, languageOfV]
+  cases Reader.u8 l with
+  | none => rfl
+  | some x =>
+    simp only [Option.bind_some]
+    cases h : Exh.Language.ofCode x.1 <;> simp
+
+theorem countColumn_eq_expected (n : Nat) (l : Bytes) :
+    ParserBE.count Exh.pColumn n l =
+      (repeatN (Kind.read .big [] (.struct Expected.excelColumnDefinition)) n l).bind fun vs =>
+        (projAll columnOfV vs.1).map (·, vs.2) := by
+  apply listReader_eq_repeatN Exh.pColumn (ParserBE.count Exh.pColumn)
+  · intro l; rfl
+  · intro n l; simp only [ParserBE.count, p_bind, p_pure']
+  · intro l
+    rw [pColumn_eq_expected]
+    binrw_norm [Expected.excelColumnDefinition]
+    rfl
+
+theorem countLanguage_eq_expected (n : Nat) (l : Bytes) :
+    ParserBE.count Exh.pLanguage n l =
+      (repeatN (Kind.read .big [] (.enum .u8 languageValid)) n l).bind fun vs =>
+        (projAll languageOfV vs.1).map (·, vs.2) := by
+  apply listReader_eq_repeatN Exh.pLanguage (ParserBE.count Exh.pLanguage)
+  · intro l; rfl
+  · intro n l; simp only [ParserBE.count, p_bind, p_pure']
+  · intro l; exact pLanguage_eq_expected l
+
+theorem pColumn_eq_generated (l : Bytes) :
+    Exh.pColumn l = via columnOf (Layout.read .big BinrwExcel.excelColumnDefinition l) :=
+  tie pColumn_eq_expected excelColumnDefinition_generated l
+theorem countColumn_eq_generated (n : Nat) (l : Bytes) :
+    ParserBE.count Exh.pColumn n l =
+      (repeatN (Kind.read .big [] (.struct BinrwExcel.excelColumnDefinition)) n l).bind fun vs =>
+        (projAll columnOfV vs.1).map (·, vs.2) := by
+  rw [countColumn_eq_expected]; simp only [Kind.read, Layout.read_congr _ excelColumnDefinition_generated]
+theorem countLanguage_eq_generated (n : Nat) (l : Bytes) :
+    ParserBE.count Exh.pLanguage n l =
+      (repeatN (Kind.read .big [] (.enum BinrwExcel.languageRepr BinrwExcel.languageValid)) n l).bind fun vs =>
+        (projAll languageOfV vs.1).map (·, vs.2) := by
+  have h := language_generated
+  simp only [Prod.mk.injEq] at h
+  rw [h.1, h.2]; exact countLanguage_eq_expected n l
+
 /-! ### the tie -/
 theorem pHeader_eq_generated (l : Bytes) :
-    Exh.pHeader l = via exhHeaderOf (Layout.read .little BinrwExcel.eXHHeader l) :=
+    Exh.pHeader l = via exhHeaderOf (Layout.read .big BinrwExcel.eXHHeader l) :=
   tie pHeader_eq_expected eXHHeader_generated l
 theorem pPage_eq_generated (l : Bytes) :
-    Exh.pPage l = via pageOf (Layout.read .little BinrwExcel.excelDataPagination l) :=
+    Exh.pPage l = via pageOf (Layout.read .big BinrwExcel.excelDataPagination l) :=
   tie pPage_eq_expected excelDataPagination_generated l
 theorem pDataOffset_eq_generated (l : Bytes) :
-    Exd.pDataOffset l = via dataOffsetOf (Layout.read .little BinrwExcel.excelDataOffset l) :=
+    Exd.pDataOffset l = via dataOffsetOf (Layout.read .big BinrwExcel.excelDataOffset l) :=
   tie pDataOffset_eq_expected excelDataOffset_generated l
 theorem countPage_eq_generated (n : Nat) (l : Bytes) :
     ParserBE.count Exh.pPage n l =
-      (repeatN (Kind.read .little [] (.struct BinrwExcel.excelDataPagination)) n l).bind fun vs =>
+      (repeatN (Kind.read .big [] (.struct BinrwExcel.excelDataPagination)) n l).bind fun vs =>
         (projAll pageOfV vs.1).map (·, vs.2) := by
   rw [countPage_eq_expected]; simp only [Kind.read, Layout.read_congr _ excelDataPagination_generated]
 theorem countDataOffset_eq_generated (n : Nat) (l : Bytes) :
     ParserBE.count Exd.pDataOffset n l =
-      (repeatN (Kind.read .little [] (.struct BinrwExcel.excelDataOffset)) n l).bind fun vs =>
+      (repeatN (Kind.read .big [] (.struct BinrwExcel.excelDataOffset)) n l).bind fun vs =>
         (projAll dataOffsetOfV vs.1).map (·, vs.2) := by
   rw [countDataOffset_eq_expected]; simp only [Kind.read, Layout.read_congr _ excelDataOffset_generated]
 theorem pExdHead_eq_generated (l : Bytes) :
     Exd.pExdHead l =
-      (Layout.read .little BinrwExcel.eXDHeader l).bind fun x =>
+      (Layout.read .big BinrwExcel.eXDHeader l).bind fun x =>
         match x.1 with
         | [.w16 .u16 version, .w32 .u32 indexSize] =>
           (ParserBE.count Exd.pDataOffset (indexSize / 8).toNat x.2).map fun o => ((version, indexSize, o.1), o.2)
